@@ -560,7 +560,10 @@ class Gen:
             if r < 0.40 and depth < 2:
                 acts.append(['cleanup', self.stage(depth + 1)])
             elif r < 0.58:
-                acts.append(['addDetail', self.name(), self.uc()])
+                n = self.name()
+                if n[0] in (0, 1) and rng.random() < 0.7:     # names colliding with generated ones: keep them a minority
+                    n = [rng.choice([3, 4, 5, 6])] + n[1:]     # (each such program falls in the lateCollision finding class)
+                acts.append(['addDetail', n, self.uc()])
             elif r < 0.72:
                 self.mid += 1
                 acts.append(['expect', self.mid, self.nucs()])
